@@ -1890,6 +1890,10 @@ func (ls *LState) Call(nargs, nret int) {
 	ls.callR(nargs, nret, -1)
 }
 
+// errorHandlerFrames is the number of call frames freed for the message handler of a protected call
+// when the error is an overflow of the call stack.
+const errorHandlerFrames = 8
+
 func (ls *LState) PCall(nargs, nret int, errfunc *LFunction) (err error) {
 	err = nil
 	sp := ls.stack.Sp()
@@ -1937,6 +1941,16 @@ func (ls *LState) PCall(nargs, nret int, errfunc *LFunction) (err error) {
 						ls.reg.SetTop(base)
 					}
 				}()
+				// a handler needs call frames of its own: when the fault is the call stack being exhausted,
+				// the innermost frames give theirs up (the reference implementation keeps a reserve for this)
+				if ls.stack.IsFull() {
+					newsp := ls.stack.Sp() - errorHandlerFrames
+					if newsp < sp {
+						newsp = sp
+					}
+					ls.stack.SetSp(newsp)
+					ls.currentFrame = ls.stack.Last()
+				}
 				// pushing can itself fail (registry overflow), so it is done under the recover above
 				ls.Push(errfunc)
 				ls.Push(err.(*ApiError).Object)
